@@ -70,7 +70,7 @@ PROPS = {
         "lean": ["PasfmtModel.Props.C06"],
         "streams": [
             {"stream": "fmt", "families": "relayout", "quick": 2500, "thorough": 40000, "binding": ["pre", "out", "*"], "args": {"oracles": "c06"}},
-            {"stream": "fmt", "name": "pairs", "families": "pairs", "quick": 3000, "thorough": 60000, "binding": ["pre", "*"], "args": {}},
+            {"stream": "fmt", "name": "pairs", "families": "pairs", "quick": 30000, "thorough": 200000, "binding": ["pre", "*"], "args": {}},
             {"stream": "fmt", "name": "pairs_enum", "families": "pairs_enum", "quick": 4000, "thorough": 831875, "multi_seed": False,
              "binding": ["pre", "*"], "args": {}},
         ],
